@@ -691,6 +691,34 @@ def FitState.inStepB (st : FitState) : Bool :=
   !st.frontier.isEmpty && st.frontier.all (fun it => it.st.isSome) &&
     decide (st.frontier.length - 1 ≤ spineR st.placed)
 
+/-- **the frontier is coherent with `placed`** (candidate key invariant for payload validity, Props/C11.lean
+    `fit_emits_valid_payload`, not yet proved; evaluated by the driver over every iteration, op `fitEmit`):
+    walking the last-child chain of `placed` level by level, the entry of level `i` has the type of the
+    node opened there and its match is the state of that type's automaton after the children counted
+    at that level.  `g` = the deepest level whose open node is still the one `Fitter.__init__` put there
+    (levels are closed and opened at the top only, so these levels form a prefix): for `i ≤ g` the count
+    starts from the state `Fitter.__init__` computed (`base[i]`, which already counts the child
+    containing `from`, so for `i < D = depth(from)` the first child is skipped); deeper levels were
+    opened by the Fitter and count all children from the start state. -/
+def frontierCoherentAux (S : Schema) (D g : Nat) (base : List FItem) : Nat → List FItem → List Node → Bool
+  | _, [], _ => true
+  | i, it :: rest, frag =>
+    let s0 : Option Nat := if i ≤ g then (base[i]?).bind (·.st) else some 0
+    let kids := if i ≤ g && decide (i < D) then frag.drop 1 else frag
+    (match s0 with
+     | some s => (S.dfa it.ty).run s (S.types kids) == it.st && it.st.isSome
+     | none => false) &&
+    (match rest with
+     | [] => true
+     | nxt :: _ =>
+       match frag.getLast? with
+       | some n => S.tyOf n == nxt.ty && frontierCoherentAux S D g base (i + 1) rest n.kids
+       | none => false)
+
+/-- coherent for some `g ≤ D` -/
+def FitState.coherentB (S : Schema) (D : Nat) (base : List FItem) (st : FitState) : Bool :=
+  (List.range (D + 1)).any (fun g => frontierCoherentAux S D g base 0 st.frontier st.placed)
+
 /-- every edge of a content automaton is labelled with a node type of the schema (true of every
     compiled schema; decidable guard of `fit_emits_wf`, Props/C11.lean) -/
 def Schema.labelsOKB (S : Schema) : Bool :=
